@@ -19,7 +19,7 @@ theorem Shrinks.trans {s s1 s2 : State} (h1 : Shrinks s s1) (h2 : Shrinks s1 s2)
   intro y hy hg x a hx
   cases hy1 : getLive s1.anns y with
   | none =>
-    obtain ⟨a1, ha1, hk⟩ := h2.sub x a hx
+    obtain ⟨a1, ha1, _, _, hk⟩ := h2.sub x a hx
     intro hc
     exact h1.clean y hy hy1 x a1 ha1 (hk _ hc)
   | some ay => exact h2.clean y (by simp [hy1]) hg x a hx
